@@ -423,7 +423,7 @@ def expected(s, package):
             exp["cues"] = list(cues)
             if any(q[6] for q in cues):
                 classes.add("cue-names")
-        total += 12 + 24 * len(cues)
+        total += 12 + (sum(8 + len(q[6]) for q in cues) if c == "aiff" else 24 * len(cues))
     # instrument
     acc = [val for (k, late, ok, val, raw, n) in s.calls if k == "inst" and ok]
     if acc and c in INST_SUPPORT:
